@@ -55,12 +55,17 @@ Definition oprops_inv (v ctx : N) (pr : option props) : Prop :=
 Definition ack_inv (present_ok : bool) (ctx code : N) (pr : option props) : Prop :=
   (pr = None /\ code = 0) \/ (present_ok = true /\ code < 256 /\ exists p, pr = Some p /\ props_inv ctx p).
 
+(* a PUBLISH has a non-empty topic name, or (v5) a Topic Alias *)
+Definition pub_topic_ok (v : N) (topic : str) (pr : option props) : bool :=
+  negb ((len topic =? 0)
+        && (negb (v =? 5) || match pr with Some p => negb (is_some (ps_get 35 (pr_single p))) | None => true end)).
+
 Definition dec_inv (v : N) (b : body) : Prop :=
   match b with
   | BConnack ver code sp pr => ver = v /\ code < 256 /\ oprops_inv v CONNACK pr
   | BPublish ver dup qos retain topic pid payload pr =>
       ver = v /\ qos <= 2 /\ negb ((qos =? 0) && dup) = true /\ istr_ok topic = true /\ impl_name topic = true
-      /\ pid < 65536 /\ (qos = 0 -> pid = 0) /\ oprops_inv v PUBLISH pr
+      /\ pid < 65536 /\ (qos = 0 -> pid = 0) /\ oprops_inv v PUBLISH pr /\ pub_topic_ok v topic pr = true
   | BAck t ver pid code pr =>
       (t = PUBACK \/ t = PUBREC \/ t = PUBCOMP) /\ ver = v /\ pid < 65536 /\ ack_inv (v =? 5) t code pr
   | BPubrel pid code pr => pid < 65536 /\ ack_inv true PUBREL code pr
@@ -96,7 +101,8 @@ Lemma rt_publish : forall v dup qos retain topic pid payload pr t fl bytes,
   t = PUBLISH /\ fl < 16 /\ publish_flags fl = Ok (dup, qos, retain)
   /\ parse_publish v dup qos retain bytes = Ok (BPublish v dup qos retain topic pid payload pr).
 Proof.
-  intros v dup qos retain topic pid payload pr t fl bytes (_ & Hq & Hd & Ht & Hn & Hp & Hp0 & Hpr) Hpack Hlen.
+  intros v dup qos retain topic pid payload pr t fl bytes (_ & Hq & Hd & Ht & Hn & Hp & Hp0 & Hpr & Htok) Hpack Hlen.
+  unfold pub_topic_ok in Htok. apply negb_true_iff in Htok.
   cbn [pack_body] in Hpack. apply ok3_inj in Hpack; destruct Hpack as (<- & <- & <-).
   destruct (publish_flags_rt dup qos retain Hq Hd) as [Hf Hlt].
   split; [reflexivity|]. split; [assumption|]. split; [assumption|].
@@ -112,9 +118,9 @@ Proof.
       apply read_uint16_put16. assumption. }
   rewrite Hpid. cbn [bind].
   unfold oprops_inv in Hpr. destruct (v =? 5) eqn:Ev.
-  - destruct Hpr as [p [-> Hinv]]. rewrite props_rt; [reflexivity|assumption|].
-    unfold BIG in Hlen. rewrite !len_app in Hlen. lia.
-  - subst pr. reflexivity.
+  - destruct Hpr as [p [-> Hinv]]. rewrite props_rt; [|assumption|unfold BIG in Hlen; rewrite !len_app in Hlen; lia].
+    cbn [bind]. rewrite Htok. reflexivity.
+  - subst pr. cbn [app bind]. rewrite Htok. reflexivity.
 Qed.
 
 Lemma ack_tail_rt : forall pt code pr tail,
